@@ -104,6 +104,14 @@ type Fresh struct {
 	busy map[ssa.Value]bool
 	fnM  map[*ssa.Function][]int
 	fnB  map[*ssa.Function]bool
+	// storeM: memo of storeReachable (may a store to a field be reached from a function)
+	storeM map[fnField]bool
+	// privM/privB: memo and in-progress set of usesPrivate
+	privM map[privKey]bool
+	privB map[privKey]bool
+	// objM/objB: memo and in-progress set of private
+	objM map[privKey]bool
+	objB map[privKey]bool
 }
 
 func newFresh(c *Ctx) *Fresh {
@@ -238,6 +246,11 @@ func (f *Fresh) level1(v ssa.Value) int {
 					for _, sv := range vals {
 						l = minInt(l, f.level(sv))
 					}
+					return l
+				}
+				// load of a field of an object this computation owns (a fresh receiver or parameter), filled in by
+				// this very function on every path to the load
+				if l, ok := f.ownedFieldLoad(x, fa); ok {
 					return l
 				}
 			}
@@ -463,12 +476,74 @@ func (f *Fresh) paramLevel(p *ssa.Parameter) int {
 				if idx >= len(args) {
 					return notFresh
 				}
+				// the call sits in the synthetic wrapper of a method value `x.m`: the receiver is what was bound at the
+				// places where the method value is formed (a closure `func(tx) error { return x.m(tx) }` in disguise)
+				if w := boundWrapperOf(e.Site); w != nil {
+					l = minInt(l, f.boundRecvLevel(w, idx))
+					continue
+				}
 				l = minInt(l, f.level(args[idx]))
 			}
 			return l
 		}
 	}
 	return notFresh
+}
+
+// boundWrapperOf: site is the forwarding call inside go/ssa's synthetic "$bound" wrapper of a method value x.m (a
+// parentless synthetic function with one free variable, the bound receiver, which it passes as the receiver of the
+// method). Returns the wrapper, or nil if site lies in ordinary code.
+func boundWrapperOf(site ssa.CallInstruction) *ssa.Function {
+	w := site.Parent()
+	if w == nil || w.Synthetic == "" || w.Parent() != nil || len(w.FreeVars) != 1 {
+		return nil
+	}
+	cc := site.Common()
+	if cc.IsInvoke() || len(cc.Args) == 0 || cc.Args[0] != ssa.Value(w.FreeVars[0]) {
+		return nil
+	}
+	return w
+}
+
+// boundRecvLevel: freshness of parameter idx of a method as seen from its method-value wrapper w. Only the receiver
+// (idx 0) is known: it is the meet of the values bound wherever module code forms the method value, provided every such
+// method value is used on the spot — handed directly to a synchronous callback receiver (lock.go syncCallbackReceivers:
+// db.View(x.m) runs x.m before it returns) or called. A method value that is stored, returned, deferred or started as a
+// goroutine may run when the bound object has long been published: not fresh. The remaining parameters are supplied by
+// whoever invokes the function value (the library): not fresh.
+func (f *Fresh) boundRecvLevel(w *ssa.Function, idx int) int {
+	if idx != 0 {
+		return notFresh
+	}
+	l, n := deep, 0
+	for _, g := range f.c.w.ModFuncs {
+		allInstrs(g, func(i ssa.Instruction) {
+			mc, ok := i.(*ssa.MakeClosure)
+			if !ok || mc.Fn != ssa.Value(w) || len(mc.Bindings) != 1 {
+				return
+			}
+			n++
+			for _, r := range referrers(mc) {
+				switch u := r.(type) {
+				case *ssa.DebugRef:
+				case *ssa.Call:
+					if u.Call.Value == ssa.Value(mc) {
+						continue // called on the spot
+					}
+					if !syncCallbackReceivers[calleeName(&u.Call)] {
+						l = notFresh
+					}
+				default:
+					l = notFresh
+				}
+			}
+			l = minInt(l, f.level(mc.Bindings[0]))
+		})
+	}
+	if n == 0 {
+		return notFresh
+	}
+	return l
 }
 
 func (f *Fresh) addressTaken(fn *ssa.Function) bool {
@@ -722,4 +797,452 @@ func appendOrigins(v ssa.Value) []ssa.Value {
 	}
 	visit(v)
 	return out
+}
+
+// ---------- fields of an owned object, filled in by the loading function itself ----------
+
+// ownedFieldLoad decides a load `*(&b.F)` where b is not a local struct variable but refers to an object this
+// computation owns (level shallow; typically the receiver of an unexported method all of whose callers pass a struct
+// they have just created — a closure's captured variables turned into the fields of a small struct). What such a field
+// holds at function entry was put there by somebody else and is not known here, so the load is decided only if on every
+// path from the entry to the load the last thing that can have changed b.F is a store of a fresh value to b.F by this
+// function (`r.bm = roaring.New(); r.bm.FromBuffer(item)`). Between that store and the load there must be nothing that
+// may write the field: no store of a non-fresh value to field F of any object (it might be b), no assignment of a whole
+// struct containing F, no call into module code that (transitively) contains a store to F, no call that hands b to a
+// library, no goroutine or deferred call that may do so; and the field's address is not passed on in this function.
+// "Owns" means more than created here: the object must still be private (see private) — reachable only through this
+// computation's own locals, parameters and on-the-spot callbacks — so that no other goroutine writes the field in between.
+// The same method storing a long-lived object's bitmap into the field, mutating a bitmap it loads from a field it did not
+// fill (`r.g.cache[k]`), or running on a receiver that is itself kept in a long-lived object, is not covered by this
+// and stays not fresh.
+func (f *Fresh) ownedFieldLoad(ld *ssa.UnOp, fa *ssa.FieldAddr) (int, bool) {
+	fld := fieldOf(fa.X.Type(), fa.Field)
+	fn := ld.Parent()
+	if fld == nil || fn == nil || f.level(fa.X) != shallow {
+		return notFresh, false // not owned; or deep, where every load is fresh anyway (level1)
+	}
+	base := peel(fa.X)
+	// "created here" is not enough: an object that was handed to a map, a library or another goroutine before its
+	// fields are filled in (`gb := &groupBy{}; m.LoadOrStore(k, gb); gb.Values = …; sort.Slice(gb.Values, …)`) is
+	// written while others already read it
+	if !f.private(base) {
+		return notFresh, false
+	}
+	ok := true
+	allInstrs(fn, func(i ssa.Instruction) {
+		switch x := i.(type) {
+		case *ssa.FieldAddr:
+			if fieldOf(x.X.Type(), x.Field) == fld && fieldAddrPassedOn(x) {
+				ok = false
+			}
+		case *ssa.Go:
+			if f.mayStoreField(x, fld, base) {
+				ok = false
+			}
+		}
+	})
+	if !ok {
+		return notFresh, false
+	}
+	res := deep
+	seen := map[*ssa.BasicBlock]bool{}
+	var back func(b *ssa.BasicBlock, from int) bool
+	back = func(b *ssa.BasicBlock, from int) bool {
+		for k := from - 1; k >= 0; k-- {
+			switch x := b.Instrs[k].(type) {
+			case *ssa.Store:
+				if a, isFA := x.Addr.(*ssa.FieldAddr); isFA && fieldOf(a.X.Type(), a.Field) == fld {
+					lv := f.level(x.Val)
+					if lv < shallow {
+						return false
+					}
+					res = minInt(res, lv)
+					if peel(a.X) == base {
+						return true // this store decides what the load sees on this path
+					}
+					continue // field F of an object that may or may not be b: either way the field holds a fresh value
+				}
+				if typeContainsField(x.Val.Type(), fld, 0) {
+					return false
+				}
+			case *ssa.Call:
+				if f.mayStoreField(x, fld, base) {
+					return false
+				}
+			case *ssa.RunDefers:
+				bad := false
+				allInstrs(fn, func(i ssa.Instruction) {
+					if d, isDefer := i.(*ssa.Defer); isDefer && f.mayStoreField(d, fld, base) {
+						bad = true
+					}
+				})
+				if bad {
+					return false
+				}
+			}
+		}
+		if len(b.Preds) == 0 {
+			return false // reached the entry: the field still holds what the caller left there
+		}
+		for _, p := range b.Preds {
+			if seen[p] {
+				continue
+			}
+			seen[p] = true
+			if !back(p, len(p.Instrs)) {
+				return false
+			}
+		}
+		return true
+	}
+	if !back(ld.Block(), pointOf(ld).i) {
+		return notFresh, false
+	}
+	return res, true
+}
+
+// fieldAddrPassedOn: the field's address is used for something other than loading from it or storing to it.
+func fieldAddrPassedOn(fa *ssa.FieldAddr) bool {
+	for _, r := range referrers(fa) {
+		switch x := r.(type) {
+		case *ssa.UnOp, *ssa.DebugRef:
+		case *ssa.Store:
+			if x.Addr != ssa.Value(fa) {
+				return true
+			}
+		default:
+			return true
+		}
+	}
+	return false
+}
+
+// typeContainsField: a value of type t contains field fld directly (struct, nested struct or array of structs by value).
+func typeContainsField(t types.Type, fld *types.Var, depth int) bool {
+	if depth > 8 {
+		return true
+	}
+	switch x := t.Underlying().(type) {
+	case *types.Struct:
+		for i := 0; i < x.NumFields(); i++ {
+			if x.Field(i) == fld || typeContainsField(x.Field(i).Type(), fld, depth+1) {
+				return true
+			}
+		}
+	case *types.Array:
+		return typeContainsField(x.Elem(), fld, depth+1)
+	}
+	return false
+}
+
+// mayStoreField: the call (also deferred or started as a goroutine) may assign field fld of the object base points to.
+// Module callees — the static callee or the call graph's targets, plus every function value among the arguments — do so
+// if a store to fld (of any object) is reachable from them; a library callee only if it is handed (something inside)
+// the object. A function value whose code is not known may do anything.
+func (f *Fresh) mayStoreField(site ssa.CallInstruction, fld *types.Var, base ssa.Value) bool {
+	cc := site.Common()
+	if _, isBuiltin := cc.Value.(*ssa.Builtin); isBuiltin {
+		return false
+	}
+	var targets []*ssa.Function
+	if g := calleeFunc(cc); g != nil {
+		targets = append(targets, g)
+	} else {
+		if n := f.c.w.CG.Nodes[site.Parent()]; n != nil {
+			for _, e := range n.Out {
+				if e.Site == site {
+					targets = append(targets, e.Callee.Func)
+				}
+			}
+		}
+		if len(targets) == 0 {
+			return true
+		}
+	}
+	for _, a := range cc.Args {
+		if _, isFunc := a.Type().Underlying().(*types.Signature); !isFunc {
+			continue
+		}
+		switch g := a.(type) {
+		case *ssa.Function:
+			targets = append(targets, g)
+		case *ssa.MakeClosure:
+			targets = append(targets, g.Fn.(*ssa.Function))
+		default:
+			return true
+		}
+	}
+	for _, g := range targets {
+		if f.c.w.inModule(g) && g.Blocks != nil {
+			if f.storeReachable(g, fld) {
+				return true
+			}
+			continue
+		}
+		for _, a := range callArgs(cc) {
+			if peel(path(a).Root) == base {
+				return true
+			}
+		}
+	}
+	return false
+}
+
+type fnField struct {
+	fn  *ssa.Function
+	fld *types.Var
+}
+
+// storeReachable: some module function reachable from g (g included) stores to field fld of some object, assigns a whole
+// struct containing it, or passes the field's address on.
+func (f *Fresh) storeReachable(g *ssa.Function, fld *types.Var) bool {
+	k := fnField{g, fld}
+	if r, ok := f.storeM[k]; ok {
+		return r
+	}
+	if f.storeM == nil {
+		f.storeM = map[fnField]bool{}
+	}
+	res := false
+	for h := range f.c.w.reach(g).Funcs {
+		allInstrs(h, func(i ssa.Instruction) {
+			switch x := i.(type) {
+			case *ssa.FieldAddr:
+				if fieldOf(x.X.Type(), x.Field) != fld {
+					return
+				}
+				for _, r := range referrers(x) {
+					switch r.(type) {
+					case *ssa.UnOp, *ssa.DebugRef:
+					default:
+						res = true
+					}
+				}
+			case *ssa.Store:
+				if typeContainsField(x.Val.Type(), fld, 0) {
+					res = true
+				}
+			}
+		})
+		if res {
+			break
+		}
+	}
+	f.storeM[k] = res
+	return res
+}
+
+// ---------- privacy: an object nobody else can reach yet ----------
+
+type privKey struct {
+	v     ssa.Value
+	retOK bool
+}
+
+// private: the object v points to is reachable only from the computation that created it, in every function that gets
+// to see it: it is a local allocation (or the result of a module constructor returning one) whose pointer is only used
+// to access its fields, passed to module functions that do the same with their parameter, captured by function values
+// that are run on the spot (called, deferred, or handed to a synchronous callback receiver), and returned by its
+// creator; or a parameter of an unexported, non-address-taken function that is used like that and receives such an
+// object at every call site (for the receiver of a method value: at every place the method value is formed).
+// Storing the pointer anywhere, converting it to an interface, passing it to a library or a goroutine publishes it.
+// Flow-insensitive: an object that is published at all — even after the access in question — is not private.
+func (f *Fresh) private(v ssa.Value) bool {
+	v = peel(v)
+	k := privKey{v, true}
+	if r, ok := f.objM[k]; ok {
+		return r
+	}
+	if f.objM == nil {
+		f.objM, f.objB = map[privKey]bool{}, map[privKey]bool{}
+	}
+	if f.objB[k] {
+		return true // recursive functions: "never published" is decided by the outer visit
+	}
+	f.objB[k] = true
+	res := f.private1(v)
+	delete(f.objB, k)
+	f.objM[k] = res
+	return res
+}
+
+func (f *Fresh) private1(v ssa.Value) bool {
+	switch x := v.(type) {
+	case *ssa.Alloc:
+		return f.usesPrivate(x, true)
+	case *ssa.Call:
+		_, callee, vals, ok := resultOrigins(f.c.w, x)
+		if !ok || callee == x.Parent() {
+			return false
+		}
+		for _, rv := range vals {
+			if !f.private(rv) {
+				return false
+			}
+		}
+		return f.usesPrivate(x, true)
+	case *ssa.Parameter:
+		fn := x.Parent()
+		idx := -1
+		for i, q := range fn.Params {
+			if q == x {
+				idx = i
+			}
+		}
+		if idx < 0 || fn.Parent() != nil || fn.Object() == nil || fn.Object().Exported() || !f.c.w.inModule(fn) || f.addressTaken(fn) {
+			return false
+		}
+		node := f.c.w.CG.Nodes[fn]
+		if node == nil || len(node.In) == 0 || !f.usesPrivate(x, false) {
+			return false
+		}
+		for _, e := range node.In {
+			if e.Site == nil || calleeFunc(e.Site.Common()) != fn || idx >= len(e.Site.Common().Args) {
+				return false
+			}
+			if _, isCall := e.Site.(*ssa.Call); !isCall {
+				return false
+			}
+			w := boundWrapperOf(e.Site)
+			if w == nil {
+				if !f.private(e.Site.Common().Args[idx]) {
+					return false
+				}
+				continue
+			}
+			// receiver of a method value: the objects bound where it is formed (run on the spot: boundRecvLevel, usesPrivate)
+			if idx != 0 {
+				return false
+			}
+			n, ok := 0, true
+			for _, g := range f.c.w.ModFuncs {
+				allInstrs(g, func(i ssa.Instruction) {
+					if mc, isMC := i.(*ssa.MakeClosure); isMC && mc.Fn == ssa.Value(w) && len(mc.Bindings) == 1 {
+						n++
+						if !f.private(mc.Bindings[0]) {
+							ok = false
+						}
+					}
+				})
+			}
+			if n == 0 || !ok {
+				return false
+			}
+		}
+		return true
+	}
+	return false
+}
+
+// usesPrivate: no use of pointer p (in its function and, through calls and on-the-spot function values, in the module
+// functions it is passed to) makes the object reachable from anywhere else. retOK: returning p is fine (p's creator
+// hands its object to the caller when it is done with it); a callee returning its parameter is not followed.
+func (f *Fresh) usesPrivate(p ssa.Value, retOK bool) bool {
+	k := privKey{p, retOK}
+	if r, ok := f.privM[k]; ok {
+		return r
+	}
+	if f.privM == nil {
+		f.privM, f.privB = map[privKey]bool{}, map[privKey]bool{}
+	}
+	if f.privB[k] {
+		return true // recursion: decided by the outer visit
+	}
+	f.privB[k] = true
+	res := f.usesPrivate1(p, retOK)
+	delete(f.privB, k)
+	f.privM[k] = res
+	return res
+}
+
+func (f *Fresh) usesPrivate1(p ssa.Value, retOK bool) bool {
+	for _, r := range referrers(p) {
+		switch x := r.(type) {
+		case *ssa.DebugRef, *ssa.BinOp, *ssa.UnOp:
+			// comparison with nil; copy of the struct's value
+		case *ssa.FieldAddr, *ssa.IndexAddr:
+			if !interiorPrivate(x.(ssa.Value), 0) {
+				return false
+			}
+		case *ssa.Store:
+			if x.Val == p {
+				return false // the pointer is stored somewhere
+			}
+		case *ssa.Return:
+			if !retOK {
+				return false
+			}
+		case *ssa.MakeClosure:
+			g, _ := x.Fn.(*ssa.Function)
+			if g == nil || !runOnTheSpot(x) {
+				return false
+			}
+			for bi, b := range x.Bindings {
+				if b == p && (bi >= len(g.FreeVars) || !f.usesPrivate(g.FreeVars[bi], false)) {
+					return false
+				}
+			}
+		case *ssa.Call:
+			cc := &x.Call
+			if _, isBuiltin := cc.Value.(*ssa.Builtin); isBuiltin {
+				continue // len, cap, …: nothing is kept
+			}
+			g := calleeFunc(cc)
+			if g == nil || cc.Value == p || !f.c.w.inModule(g) || g.Blocks == nil {
+				return false
+			}
+			for ai, a := range cc.Args {
+				if a == p && (ai >= len(g.Params) || !f.usesPrivate(g.Params[ai], false)) {
+					return false
+				}
+			}
+		default:
+			return false // interface conversion, phi, send, map update, go, defer, …
+		}
+	}
+	return true
+}
+
+// interiorPrivate: an address inside the object (field, element, nested) is only loaded from and stored to.
+func interiorPrivate(q ssa.Value, depth int) bool {
+	if depth > 6 {
+		return false
+	}
+	for _, r := range referrers(q) {
+		switch x := r.(type) {
+		case *ssa.DebugRef, *ssa.UnOp:
+		case *ssa.Store:
+			if x.Addr != q {
+				return false
+			}
+		case *ssa.FieldAddr, *ssa.IndexAddr:
+			if !interiorPrivate(x.(ssa.Value), depth+1) {
+				return false
+			}
+		default:
+			return false
+		}
+	}
+	return true
+}
+
+// runOnTheSpot: the function value is only called, deferred, or handed directly to a synchronous callback receiver
+// (lock.go syncCallbackReceivers): it does not outlive the call that forms it and runs on the forming goroutine.
+func runOnTheSpot(mc *ssa.MakeClosure) bool {
+	for _, r := range referrers(mc) {
+		switch x := r.(type) {
+		case *ssa.DebugRef:
+		case *ssa.Call:
+			if x.Call.Value != ssa.Value(mc) && !syncCallbackReceivers[calleeName(&x.Call)] {
+				return false
+			}
+		case *ssa.Defer:
+			if x.Call.Value != ssa.Value(mc) {
+				return false
+			}
+		default:
+			return false
+		}
+	}
+	return true
 }
